@@ -210,6 +210,13 @@ Proof.
     destruct (stored_len s <=? i); [reflexivity|]. destruct (nm_get i (updated s)); reflexivity.
 Qed.
 
+(* the value under slot i, whether or not the slot is deleted *)
+Definition uopt (s : rv) (i : N) : option T :=
+  if stored_len s <=? i then get (pushed s) (i - stored_len s)
+  else match nm_get i (updated s) with Some v => Some v | None => Some (phys_read s i) end.
+Lemma view_at_uopt (s : rv) i : view_at s i = if ns_mem i (holes s) then None else uopt s i.
+Proof. apply view_at_eq. Qed.
+
 Lemma phys_read_disk (s : rv) i x : get (disk s) i = Some x -> phys_read s i = x.
 Proof.
   intros H. unfold RvModel.phys_read, vr_read, vr_phys. unfold disk in H.
@@ -364,10 +371,10 @@ Proof.
   unfold write_header_if_needed. destruct (hdr_modified s) eqn:E; cbn; repeat split; auto.
 Qed.
 
-Theorem write_ok (s : rv) : Inv s ->
+Theorem write_ok_u (s : rv) : Inv s ->
   exists b s', rv_write s = (s', Ok b) /\ Inv s' /\ Normal s' /\ rlen s' = rlen s /\ holes s' = holes s /\
                stamp s' = stamp s /\ prevf s' = prevf s /\
-               (forall i, i < rlen s -> view_at s' i = view_at s i).
+               (forall i, i < rlen s -> uopt tsize dec s' i = uopt tsize dec s i).
 Proof.
   intros (I1 & I2 & I3 & I4 & I5 & I6).
   destruct (whin_fields s) as (F1 & F2 & F3 & F4 & F5 & F6 & F7 & F8 & F9). specialize (F9 I6) as [G1 G2].
@@ -393,7 +400,7 @@ Proof.
     + unfold Normal. rewrite Hp, Hu, Hh. repeat split; auto; try lia.
       destruct (holes_region s0) eqn:Er; auto. exfalso.
       destruct Inv0 as (_ & _ & _ & _ & K5 & _). assert (X : has_stored_holes s0 = true) by (apply K5; congruence). congruence.
-    + repeat split; auto. 
+    + repeat split; auto. intros i Hi. unfold uopt, RvModel.phys_read. now rewrite F1, F2, F3, F5.
   - (* the three phases *)
     destruct (write_data_ok s0 J1) as (s1 & Hwd & P1 & S1 & Rl1 & D1 & H1 & U1 & Hf1 & Hd1 & Pr1).
     rewrite Hwd.
@@ -419,8 +426,8 @@ Proof.
     split.
     { unfold Normal. rewrite P3, P2, P1, U3, U2, S3, S2, S1, Hrl3, L0, Hr3, H3, Hm3, Hdk3, Hst3. repeat split; auto. }
     split; [exact Hl3|]. split; [exact Hh3|]. split; [congruence|]. split; [congruence|].
-    intros i Hi. rewrite <- V0. rewrite !view_at_eq. rewrite Hh3, <- F4.
-    destruct (ns_mem i (holes s0)) eqn:Em; [reflexivity|].
+    intros i Hi. assert (U0 : uopt tsize dec s0 i = uopt tsize dec s i) by (unfold uopt, RvModel.phys_read; now rewrite F1, F2, F3, F5).
+    rewrite <- U0. unfold uopt.
     rewrite S3, S2, S1, L0. destruct (rlen s <=? i) eqn:E1; [lia|]. rewrite U3, U2. cbn [nm_get].
     assert (Dg : get (disk s3) i = match nm_get i (updated s0) with Some v => Some v
                  | None => if i <? stored_len s0 then get (disk s0) i else get (pushed s0) (i - stored_len s0) end).
@@ -438,6 +445,16 @@ Proof.
         destruct (get_lt_some (disk s0) i) as [x Hx]; [unfold disk, real_stored_len, vr_len in *; lia|].
         rewrite Hx in Dg. f_equal. rewrite (phys_read_disk tsize dec s3 i x Dg).
         symmetry. apply phys_read_disk. exact Hx.
+Qed.
+
+Theorem write_ok (s : rv) : Inv s ->
+  exists b s', rv_write s = (s', Ok b) /\ Inv s' /\ Normal s' /\ rlen s' = rlen s /\ holes s' = holes s /\
+               stamp s' = stamp s /\ prevf s' = prevf s /\
+               (forall i, i < rlen s -> view_at s' i = view_at s i).
+Proof.
+  intros HI. destruct (write_ok_u s HI) as (b & s' & Hw & HI' & HN & L & Hh & St & Pr & U).
+  exists b, s'. repeat split; auto; try apply HI'; try apply HN.
+  intros i Hi. rewrite !view_at_uopt, Hh, U by exact Hi. reflexivity.
 Qed.
 End WRITE.
 
